@@ -117,7 +117,7 @@ def replay_one(job):
                         bad("state_csv", "field_" + k, "epoch %d: recorded %s=%r expected %r" % (w["epoch"], k, g[k], w[k]))
                         break
         # the uninterrupted run's file must be reproduced byte for byte by a run with restarts
-        with open(sim.csv) as f:
+        with open(sim.csv, newline="") as f:
             text = f.read()
         out.append(("csv", text, None))
         # reload through a fresh controller: entries come back with their declared types
@@ -220,7 +220,7 @@ def replay_rb(job):
                 if name not in info or type(info[name]) is not typ or info[name] != want[name]:
                     bad("get_info", "user_entry", "report %d: epoch %d entry %s = %r, expected %r (%s)" % (
                         i + 1, e, name, info.get(name), want[name], typ.__name__))
-        with open(sim.csv) as f:
+        with open(sim.csv, newline="") as f:
             out.append(("csv", f.read(), None))
         # a reader of the file sees, per epoch, the row written last
         if not rebuild("at the end"):
